@@ -31,7 +31,9 @@ WSDL = """<?xml version="1.0"?>
 <definitions xmlns="http://schemas.xmlsoap.org/wsdl/" xmlns:soap="http://schemas.xmlsoap.org/wsdl/soap/"
   xmlns:xsd="http://www.w3.org/2001/XMLSchema" xmlns:tns="urn:t" targetNamespace="urn:t">
   <types><xsd:schema targetNamespace="urn:t" xmlns:tns="urn:t">
-    <xsd:complexType name="Leaf"><xsd:sequence><xsd:element name="s" type="xsd:string"/><xsd:element name="n" type="xsd:int"/></xsd:sequence></xsd:complexType>
+    <xsd:complexType name="Deep"><xsd:sequence><xsd:element name="x" type="xsd:string"/><xsd:element name="y" type="xsd:int"/></xsd:sequence></xsd:complexType>
+    <xsd:complexType name="Leaf"><xsd:sequence><xsd:element name="s" type="xsd:string"/><xsd:element name="n" type="xsd:int"/>
+       <xsd:element name="deep" type="tns:Deep" minOccurs="0"/></xsd:sequence></xsd:complexType>
     <xsd:complexType name="Mid"><xsd:sequence><xsd:element name="leaf" type="tns:Leaf"/><xsd:element name="tag" type="xsd:string"/>
        <xsd:element name="more" type="tns:Leaf" minOccurs="0" maxOccurs="unbounded"/></xsd:sequence></xsd:complexType>
     <xsd:complexType name="Top"><xsd:sequence><xsd:element name="a" type="tns:Mid"/><xsd:element name="b" type="tns:Leaf"/><xsd:element name="c" type="xsd:string"/>
@@ -80,16 +82,20 @@ def make_client():
 
 # ---------------------------------------------------------------- multiRef
 
-def leaf(tag, s, n):
+def leaf(tag, s, n, deep=False):
     e = etree.Element(tag)
     etree.SubElement(e, "s").text = s
     etree.SubElement(e, "n").text = str(n)
+    if deep:
+        d = etree.SubElement(e, "deep")          # a third level: reference chains result -> a -> leaf -> deep
+        etree.SubElement(d, "x").text = "X" + s
+        etree.SubElement(d, "y").text = str(n + 100)
     return e
 
 
 def mid(tag, i, nmore):
     e = etree.Element(tag)
-    e.append(leaf("leaf", "L%d" % i, i))
+    e.append(leaf("leaf", "L%d" % i, i, deep=True))
     etree.SubElement(e, "tag").text = "t%d" % i
     for k in range(nmore):
         e.append(leaf("more", "M%d.%d" % (i, k), k))
